@@ -168,6 +168,10 @@ NOEFFECT_METHODS = PURE_METHODS | {'format', 'count', 'copy', 'join', 'split', '
                                    'warning', 'debug', 'range', 'isdigit', 'find', 'rfind', 'tolist', 'any', 'all', 'sum', 'min', 'max'}
 
 
+RECEIVER_ONLY = {'append', 'extend', 'add', 'insert', 'update', 'setdefault', 'pop', 'remove', 'discard', 'clear', 'sort', 'reverse', 'popleft',
+                 'appendleft', 'popitem'}
+
+
 def _noeffect(call):
     """Call that does not modify program state reachable from its arguments (may allocate, may do I/O)."""
     if _pure(call):
@@ -249,6 +253,8 @@ def _writes(st, own=True):
                 p = _path(n.func.value)
                 if p:
                     calls.add(p)
+                if n.func.attr in RECEIVER_ONLY:
+                    continue      # container methods change the receiver, never their arguments
             elif isinstance(n.func, ast.Name):
                 calls.add(('<fn>', n.func.id))
             for a in list(n.args) + [k.value for k in n.keywords]:
@@ -285,14 +291,16 @@ def _interferes(expr, stmts, local_fns=()):
         if rn & wn:
             return True
         for p in wp:
-            if any(_prefix(p, q) for q in rp) or p[0] in bare:
+            # a store at path p changes what a read at path q yields only if the read goes through p (p is a prefix of q):
+            # `self.driver.outs[k] = v` does not change which object `self.driver` is
+            if any(q[:len(p)] == p for q in rp) or p[0] in bare:
                 return True
         for p in wc:
             if p[0] == '<fn>':
                 if p[1] in local_fns and (rp or bare):
                     return True
                 continue
-            if any(_prefix(p, q) for q in rp) or p[0] in bare:
+            if any(q[:len(p)] == p for q in rp) or p[0] in bare:
                 return True
     return False
 
@@ -1337,21 +1345,47 @@ def _copyprop_scope(fn, only=None):
                 sub_bases = {id(n.value) for n in _own_walk(fn) if isinstance(n, ast.Subscript) and isinstance(n.value, ast.Name) and n.value.id == t}
                 view_like = isinstance(st.value, ast.Subscript) and isinstance(st.value.slice, ast.Constant) and type(st.value.slice.value) is int \
                     and isinstance(st.value.value, ast.Attribute) and bool(all_t) and all(id(n) in sub_bases for n in all_t)
-                for k, s in enumerate(rest):
-                    uses = [n for n in ast.walk(s) if isinstance(n, ast.Name) and n.id == t and isinstance(n.ctx, ast.Load)]
-                    rebinding = _binds_name(s, t)
-                    simple = isinstance(s, (ast.Assign, ast.Expr, ast.Return, ast.AnnAssign)) and not (isinstance(s, ast.Assign) and len(s.targets) > 1)
-                    if uses:
-                        if rebinding and not simple:
-                            break
-                        # a simple statement evaluates its reads before its own stores; a compound one may interleave
-                        chk = rest[:k] if simple else rest[:k + 1]
-                        if _interferes(st.value, chk, local_fns) and not (view_like and not _interferes_names(st.value, chk)):
-                            break
-                        rest[k] = _Subst({t: st.value}).visit(s)
-                        done += 1
-                    if rebinding:
-                        break
+                def blocked(stmts_):
+                    return _interferes(st.value, stmts_, local_fns) and not (view_like and not _interferes_names(st.value, stmts_))
+
+                def prop_into(stmts_):
+                    """substitute reads of t along the statement list; returns (number of statements changed, may continue after)"""
+                    n_done = 0
+                    for k, s in enumerate(stmts_):
+                        uses = [n for n in ast.walk(s) if isinstance(n, ast.Name) and n.id == t and isinstance(n.ctx, ast.Load)]
+                        rebinding = _binds_name(s, t)
+                        simple = isinstance(s, (ast.Assign, ast.AugAssign, ast.Expr, ast.Return, ast.AnnAssign, ast.Assert, ast.Delete, ast.Pass, ast.Break, ast.Continue, ast.Raise))
+                        if simple:
+                            if isinstance(s, ast.AugAssign) and isinstance(s.target, ast.Name) and s.target.id == t:
+                                return n_done, False
+                            if uses:
+                                # a simple statement evaluates its reads before its own stores (several targets: the value first)
+                                stmts_[k] = _Subst({t: st.value}).visit(s)
+                                n_done += 1
+                            if rebinding or blocked([s]):
+                                return n_done, False
+                        elif isinstance(s, ast.If):
+                            if blocked([ast.Expr(value=s.test)]):
+                                return n_done, False
+                            if any(isinstance(n, ast.Name) and n.id == t for n in ast.walk(s.test)):
+                                s.test = _Subst({t: st.value}).visit(s.test)
+                                n_done += 1
+                            d1, c1 = prop_into(s.body)
+                            d2, c2 = prop_into(s.orelse)
+                            n_done += d1 + d2
+                            if not (c1 and c2):
+                                return n_done, False
+                        elif isinstance(s, (ast.For, ast.While)):
+                            if rebinding or blocked([s]):
+                                return n_done, False      # a later iteration could see the write: leave the loop alone
+                            if uses:
+                                stmts_[k] = _Subst({t: st.value}).visit(s)
+                                n_done += 1
+                        else:
+                            if uses or rebinding or blocked([s]):
+                                return n_done, False
+                    return n_done, True
+                done, _cont = prop_into(rest)
                 st._cp_done = True
                 if done:
                     body[i + 1:] = rest
@@ -1526,6 +1560,23 @@ class _Commute(ast.NodeTransformer):
         if len(node.ops) == 1 and isinstance(node.ops[0], (ast.Eq, ast.NotEq)):
             a, b = sorted([node.left, node.comparators[0]], key=_txt)
             node.left, node.comparators = a, [b]
+        elif len(node.ops) == 1 and isinstance(node.ops[0], (ast.Lt, ast.Gt, ast.LtE, ast.GtE)):
+            l, r = node.left, node.comparators[0]
+            # `a - b > 0` is `a > b` (exact for integers and for IEEE floats)
+            if isinstance(r, ast.Constant) and r.value == 0 and type(r.value) is int and isinstance(l, ast.BinOp) and isinstance(l.op, ast.Sub):
+                l, r = l.left, l.right
+            flip = {ast.Lt: ast.Gt, ast.Gt: ast.Lt, ast.LtE: ast.GtE, ast.GtE: ast.LtE}
+            op = node.ops[0]
+            if _txt(l) > _txt(r):      # one orientation: smaller text on the left
+                l, r, op = r, l, flip[type(op)]()
+            node.left, node.ops, node.comparators = l, [op], [r]
+        return node
+
+    def visit_Call(self, node):
+        self.generic_visit(node)
+        if isinstance(node.func, ast.Name) and node.func.id == 'len' and len(node.args) == 1 and not node.keywords \
+                and isinstance(node.args[0], ast.Attribute) and node.args[0].attr == 'shape':
+            return ast.Attribute(value=node.args[0].value, attr='ndim', ctx=ast.Load())   # len(a.shape) is a.ndim
         return node
 
 
